@@ -298,6 +298,24 @@ impl SymbolTable {
         None
     }
 
+    /// Look up a symbol in the current scope and the enclosing block scopes of the same function or method
+    /// (stops after the function/method scope itself; module-level names are not searched).
+    pub fn lookup_in_function(&self, name: &str) -> Option<SymbolId> {
+        let mut scope_idx = self.current_scope;
+        loop {
+            if let Some(&id) = self.scopes[scope_idx].symbols.get(name) {
+                return Some(id);
+            }
+            if matches!(self.scopes[scope_idx].kind, ScopeKind::Function | ScopeKind::Method { .. }) {
+                return None;
+            }
+            match self.scopes[scope_idx].parent {
+                Some(parent) => scope_idx = parent,
+                None => return None,
+            }
+        }
+    }
+
     /// Look up a symbol only in the current scope (no parent lookup)
     pub fn lookup_local(&self, name: &str) -> Option<SymbolId> {
         self.scopes[self.current_scope].symbols.get(name).copied()
